@@ -20,7 +20,7 @@ from common import ToolError, log
 
 LEVEL = "model_checking"
 
-CHECKS = ["Pow", "NumRounds", "InitMerkle1", "InitMerkle2", "Consistency0", "Consistency1",
+CHECKS = ["Shape", "Pow", "NumRounds", "InitMerkle1", "InitMerkle2", "Consistency0", "Consistency1",
           "LayerMerkle0", "LayerMerkle1", "Final"]
 LAYER_KINDS = {"coset_edit", "coset_recommit", "layer_path", "layer_delta", "layer_replace", "layer_cap", "coset_forge"}
 # deviations that only a Merkle check reads when the tree height equals the cap height (EMPTY path: the
@@ -40,7 +40,7 @@ POW_KINDS = {"pow_bad", "pow_edge_ok", "pow_lucky"}
 # ------------------------------------------------------------------------------------------
 def _rel(name, base, nl, layered):
     """check name of the model -> (class, offset) independent of the model's number of layers"""
-    if name in ("none", "Pow", "NumRounds"):
+    if name in ("none", "Shape", "Pow", "NumRounds"):
         return (name, 0)
     if name.startswith("InitMerkle") or name.startswith("LayerMerkle"):
         return ("Merkle", 0)
@@ -208,6 +208,10 @@ def compare_cases(chk, cat, rows, engine, stats, events, violate=True):
             kind, classes, v = d["kind"], d["classes"], d["verdict"]
             stats["keys"].add(json.dumps([engine, kind, d["mode"], cfg.get("strategy", "Fixed").split("(")[0], nl, d.get("last"),
                                           sorted(set(classes)), v["v"], d.get("path_len") == 0]))
+            if kind in ("degree_scaled", "final_extend", "final_truncate"):
+                sg = stats.setdefault("shape_cases", {})
+                kk = engine + "/" + kind + ("/e=%d" % d["e"] if "e" in d else "")
+                sg[kk] = sg.get(kk, 0) + 1
             if d.get("path_len") == 0 and any(c != "miss" for c in classes):
                 ep = stats.setdefault("empty_path", {})
                 ep[engine + "/" + kind] = ep.get(engine + "/" + kind, 0) + 1
@@ -372,6 +376,13 @@ def run(chk, tier):
             if ep.get(eng + "/" + kd, 0) == 0:
                 raise ToolError("coverage guard: no '%s' deviation on a tree whose height equals the cap height (%s engine)" % (kd, eng))
     chk.extra["empty_path_cases"] = ep
+    # coverage guard: the deviations only the final-polynomial length check (Shape) stands against
+    sg = stats.get("shape_cases", {})
+    for eng in ("fri", "batch"):
+        for kk in ("degree_scaled/e=1", "degree_scaled/e=2", "final_extend", "final_truncate"):
+            if sg.get(eng + "/" + kk, 0) == 0:
+                raise ToolError("coverage guard: no '%s' case in the %s engine" % (kk, eng))
+    chk.extra["shape_cases"] = sg
     chk.evaluations += stats["evaluations"]
     chk.nontrivial += len(stats["keys"])
     chk.traces += stats["matched_cases"]
